@@ -8,4 +8,5 @@ func genAll(repo string) {
 	genManager(repo)
 	genFileLog(repo)
 	genMapLog(repo)
+	genGate(repo)
 }
